@@ -24,8 +24,9 @@ from pbt.oracle_num import Unjudgeable
 # C89CodePrinter lines 400-425: Infty, _print_pow (exp, 1/x, sqrt, pow); C99CodePrinter lines 432-474: Infty, _print_pow
 #   (+ cbrt), Gamma -> tgamma, LogGamma -> lgamma
 # RewriteTrigVisitor (visitor.h:364-418): Cot Csc Sec ACot ACsc ASec Coth Csch Sech ACoth ACsch ASech are rewritten
-# generic Function path (codegen.cpp:357-365, names from init_str_printer_names()): the name is emitted as it is;
-#   the ones that are <math.h> names: sin cos tan asin acos atan atan2 sinh cosh tanh asinh acosh atanh log floor erf erfc
+# generic Function path (codegen.cpp:357-365, names from init_str_printer_names()): the name is emitted as it is; the
+#   ones that are <math.h> names: sin cos tan asin acos atan atan2 sinh cosh tanh asinh acosh atanh log floor erf erfc
+# not generated: Dummy (name carries a process-global counter), NaN (no value to compare)
 NODES = ["Symbol", "Integer", "Rational", "RealDouble", "Constant", "Add", "Mul", "Pow", "Sin", "Cos", "Tan", "Cot", "Csc",
          "Sec", "ASin", "ACos", "ATan", "ACot", "ACsc", "ASec", "Sinh", "Cosh", "Tanh", "Coth", "Csch", "Sech", "ASinh",
          "ACosh", "ATanh", "ACoth", "ACsch", "ASech", "Log", "ATan2", "Abs", "Sign", "Floor", "Ceiling", "Truncate", "Erf",
@@ -35,13 +36,100 @@ PRINTERS = [("ccode_double", ["ccode", None, "double"], False), ("ccode_float", 
             ("c89code", ["c89code", None], False), ("c99code", ["c99code", None], False)]
 BATCH = 28
 
-TAG_INT = "ccode_integer_literal_has_c_integer_type"
-TAG_PAREN = "ccode_composite_text_without_parentheses"
+# known-finding tags (GUIDE "Known findings protocol"); an exclusion is applied iff self.tag_active(tag)
+TAG_INT = "ccode_integer_literals_make_integer_arithmetic"       # KF-C15-01: 1/Piecewise((2,c),(3,True)) -> 1/((c)?(2):(3)) == 0
+TAG_BIGINT = "ccode_integer_literal_exceeds_long_long"            # KF-C15-02: 18446744073709551621*x
+TAG_PAREN = "ccode_composite_text_without_parentheses"            # KF-C15-03: y/cot(x) -> y/1/tan(x)
+TAG_EMPTY = "ccode_contains_unbounded_interval_prints_nothing"    # KF-C15-04: Contains(x, (-oo, oo)) -> ""
+
+RECIP6 = ("Cot", "Csc", "Sec", "Coth", "Csch", "Sech")
+RELHEADS = ("Equality", "Unequality", "LessThan", "StrictLessThan")
+
+
+def text_level(d):
+    """top-level operator class of the C text emitted for d: atom / muldiv / add / rel / bool"""
+    t = d[0]
+    if t == "UnevaluatedExpr":
+        return text_level(d[1])
+    if t in RECIP6 or t == "Mul" or t == "Rational":
+        return "muldiv"
+    if t in ("Integer", "RealDouble"):
+        return "muldiv" if d[1].startswith("-") else "atom"
+    if t == "Pow":
+        return "muldiv" if d[2] == ["Integer", "-1"] and d[1] != ["Constant", "E"] else "atom"
+    if t == "Add":
+        return "add"
+    if t in RELHEADS:
+        return "rel"
+    if t == "Contains":
+        return "bool"
+    return "atom"
+
+
+def paren_risk(d, ctx=None):
+    """KF-C15-03 by construction: does the dump contain a node for which Precedence answers Atom although its emitted
+    text is composite (the six reciprocal functions RewriteTrigVisitor turns into 1/f(x), UnevaluatedExpr, Contains),
+    in a position where StrPrinter decides about parentheses by precedence?  ctx: add1 (Add term, coefficient 1),
+    addc (other coefficient), num / den (Mul factor with exponent 1 / -1, base of x**-1), cmp (side of a relational,
+    argument of sign, element of Contains)"""
+    if not isinstance(d, list) or not d or not isinstance(d[0], str):
+        return False
+    t = d[0]
+    if ctx is not None and t in RECIP6 + ("UnevaluatedExpr", "Contains"):
+        lv = text_level(d)
+        if ctx == "add1" and lv in ("rel", "bool"):
+            return True
+        if ctx in ("addc", "num") and lv in ("add", "rel", "bool"):
+            return True
+        if ctx == "den" and lv != "atom":
+            return True
+        if ctx == "cmp" and lv == "bool":
+            return True
+    if t == "Add":
+        return any(paren_risk(term, "add1" if coef == ["Integer", "1"] else "addc") or paren_risk(coef) for term, coef in d[2])
+    if t == "Mul":
+        for base, ex in d[2]:
+            c = "num" if ex == ["Integer", "1"] else "den" if ex == ["Integer", "-1"] else None
+            if paren_risk(base, c) or paren_risk(ex):
+                return True
+        return False
+    if t == "Pow":
+        return paren_risk(d[1], "den" if d[2] == ["Integer", "-1"] else None) or paren_risk(d[2])
+    if t in RELHEADS or t == "Sign":
+        return any(paren_risk(x, "cmp") for x in d[1:])
+    if t == "Contains":
+        return paren_risk(d[1], "cmp") or paren_risk(d[2])
+    if t == "UnevaluatedExpr":
+        return paren_risk(d[1], ctx)
+    if t == "Piecewise":
+        return any(paren_risk(e) or paren_risk(c) for e, c in d[1])
+    if t in ("And", "Or", "Xor"):
+        return any(paren_risk(x) for x in d[1])
+    return any(paren_risk(x) for x in d[1:] if isinstance(x, list))
+
+
+def unbounded_interval(d):
+    if not isinstance(d, list) or not d:
+        return False
+    if d[0] == "Interval" and d[1][0] == "Infty" and d[2][0] == "Infty":
+        return True
+    return any(unbounded_interval(x) for x in d if isinstance(x, list))
+
+
+def has_huge_int_literal(code):
+    return any(k == "num" and tok.isdigit() and int(tok) >= 2 ** 63 for k, tok in cgen.tokens(code))
+
+
+FALLBACK = ["add", S("x"), Q(1, 3)]
 
 
 def mk_expr(e, x):
     env = dict(zip(cgen.SYMS, x[0]))
-    return {"e": en.repair(e, False, env, True)[0], "x": x}
+    try:
+        r = en.repair(e, False, env, True)[0]
+    except (en._Bad, ValueError, OverflowError, ZeroDivisionError, TypeError):
+        r = FALLBACK       # the repair pass itself left the domain (rare): a fixed tame expression instead
+    return {"e": r, "x": x}
 
 
 def finite(x):
@@ -57,38 +145,173 @@ def nontrivial(d):
             return True
         if d[0] == "Pow" and d[2][0] in ("Rational", "Integer") and (d[2][0] == "Rational" or d[2][1].startswith("-")):
             return True
-        if d[0] == "Mul" and any(ex[0] in ("Rational", "Integer") and ex[1].startswith("-") or ex[0] == "Rational"
-                                 for _, ex in d[2]):
+        if d[0] == "Mul" and any(ex[0] == "Rational" or (ex[0] == "Integer" and ex[1].startswith("-")) for _, ex in d[2]):
             return True
         return any(nontrivial(x) for x in d[1:])
     return any(nontrivial(x) for x in d)
+
+
+V = [[0.640625, -1.296875, 2.015625, 0.328125], [1.828125, 0.421875, -0.734375, 3.015625],
+     [-2.484375, 1.515625, 1.515625, 0.984375], [0.265625, 2.984375, -1.015625, -0.515625],
+     [1.015625, 1.015625, 2.484375, -1.015625], [3.265625, -0.109375, 0.890625, 0.890625]]
+
+
+def table():
+    """deterministic table: every supported node type in several argument shapes and printing contexts
+    (term of a sum, numerator, denominator, negated, function argument), integer literals around 2^31, 2^53, 2^63,
+    2^64, rational and integer powers of every base shape, Max/Min of 2-5, logic, nested Piecewise"""
+    x, y, z, t = [S(n) for n in cgen.SYMS]
+    args = [x, ["add", x, y], ["mul", Q(2, 3), y], ["sub", z, ["real_double", 0.25]], ["div", x, t], ["neg", z],
+            ["mul", x, y], ["add", ["sin", x], I(2)], ["pow", y, I(2)], ["abs", t], Q(5, 7), I(3)]
+    out = []
+    for f in cgen.UNARY_C99:
+        for k, a in enumerate(args):
+            out.append([f, a])
+            out.append([["add", [f, a], Q(1, 7)], ["div", t, [f, a]], ["mul", I(-3), [f, a]], ["sub", y, [f, a]],
+                        ["mul", [f, a], ["add", x, I(1)]], ["pow", [f, a], I(-2)]][k % 6])
+    for i, a in enumerate(args):
+        b = args[(i + 5) % len(args)]
+        c = args[(i + 7) % len(args)]
+        for o in cgen.BINARY + ["atan2"] + cgen.RELS:
+            out.append([o, a, b])
+            out.append(["mul", I(2), [o, b, ["sin", a]]])
+        for n in range(2, 6):
+            pool = [a, b, c, ["sin", a], ["cos", b], I(1), Q(1, 2)]
+            out.append(["max", L(*pool[:n])])
+            out.append(["add", ["min", L(*pool[7 - n:])], x])
+        for o in cgen.RELS:
+            out.append(["piecewise", L(L(a, [o, b, c]), L(["sin", c], ["true"]))])
+            out.append(["piecewise", L(L(a, [o, ["sin", b], ["sin", c]]), L(b, [o, a, ["cos", c]]), L(c, ["true"]))])
+            out.append(["div", I(1), ["piecewise", L(L(I(2), [o, a, b]), L(I(3), ["true"]))]])
+        for n in range(-4, 6):
+            out.append(["pow", a, I(n)])
+        for q in cgen.RAT_EXPS:
+            out.append(["pow", a, q])
+            out.append(["div", y, ["pow", a, q]])
+        out.append(["pow", I(2), a])
+        out.append(["pow", Q(-1, 2), ["floor", a]])
+        out.append(["pow", I(-2), ["ceiling", a]])
+        out.append(["pow", a, b])
+        out.append(["exp", a])
+        out.append(["pow", ["constant", "pi"], a])
+    for n in cgen.BIG_INTS:
+        out += [["mul", I(n), x], ["add", I(n), y], ["div", z, I(n)], ["Lt", x, I(n)], ["max", L(I(n), t)],
+                ["mul", Q(n, 7), x], ["atan", ["mul", I(n), x]], ["mul", I(-n), ["sin", x]]]
+    for v in cgen.DOUBLES:
+        out += [["mul", ["real_double", v], x], ["add", ["real_double", -v], y], ["pow", ["real_double", abs(v)], z],
+                ["div", t, ["real_double", v]]]
+    c1, c2 = ["Lt", x, y], ["Ge", ["add", x, z], I(0)]
+    c3 = ["contains", x, ["interval", Q(-1, 2), ["oo"], True, False]]
+    c4 = ["contains", ["mul", x, y], ["interval", ["noo"], Q(3, 2), False, True]]
+    c5 = ["contains", ["sin", z], ["interval", Q(-1, 2), Q(1, 2), False, False]]
+    c6 = ["contains", t, ["interval", I(0), I(1), True, True]]
+    c7 = ["Eq", ["floor", x], I(1)]
+    c8 = ["Ne", ["sign", y], ["sign", z]]
+    c9 = ["Le", ["ceiling", z], ["floor", t]]
+    c10 = ["contains", y, ["interval", ["noo"], ["oo"], True, True]]
+    logic = [c1, c2, c3, c4, c5, c6, c7, c8, c9, c10, ["and", L(c1, c2)], ["or", L(c1, c2)], ["xor", L(c1, c2, c3)],
+             ["not", c2], ["and", L(c1, c3, c4)], ["or", L(c4, ["not", c1])], ["xor", L(c1, c4)], ["not", c3], ["not", c5],
+             ["and", L(c7, c8)], ["or", L(c9, c6)], ["xor", L(c7, c1)], ["not", ["xor", L(c1, c2)]], ["true"], ["false"],
+             ["Eq", x, y], ["Ne", x, y], ["Le", x, y], ["Ge", x, y], ["Eq", ["abs", x], ["abs", y]]]
+    for c in logic:
+        out += [c, ["mul", I(2), c], ["add", c, x], ["sub", x, c], ["div", y, ["add", c, I(2)]],
+                ["piecewise", L(L(["sin", x], c), L(["cos", y], ["true"]))],
+                ["piecewise", L(L(I(1), c), L(I(2), ["not", c]), L(z, ["true"]))],
+                ["mul", ["piecewise", L(L(["oo"], c), L(y, ["true"]))], I(1)],
+                ["max", L(["piecewise", L(L(x, c), L(["noo"], ["true"]))], y)], ["sign", ["sub", c, Q(1, 2)]],
+                ["Lt", ["piecewise", L(L(x, c), L(y, ["true"]))], z],
+                ["piecewise", L(L(["piecewise", L(L(x, c1), L(y, ["true"]))], c),
+                                L(["piecewise", L(L(z, c2), L(t, c), L(I(0), ["true"]))], ["true"]))]]
+    for cn in ("pi", "E", "EulerGamma", "Catalan", "GoldenRatio"):
+        k = ["constant", cn]
+        out += [k, ["mul", I(2), k], ["add", k, x], ["pow", k, x], ["pow", x, k], ["div", x, k], ["sin", ["mul", k, x]],
+                ["div", k, I(4)], ["pow", k, I(2)], ["pow", k, Q(1, 2)], ["Lt", x, k]]
+    for a in (x, ["add", x, I(1)], ["mul", x, y], ["neg", x], Q(1, 3), I(3), I(-3), ["div", I(1), y], ["Lt", x, y], ["cot", x]):
+        u = ["unevaluated_expr", a]
+        out += [u, ["mul", u, y], ["div", y, ["add", ["abs", u], I(1)]], ["add", u, z], ["sub", z, u], ["mul", I(2), u],
+                ["pow", u, I(2)], ["sin", u], ["div", u, ["unevaluated_expr", I(2)]], ["div", t, u]]
+    out += [["oo"], ["noo"], ["Lt", x, ["oo"]], ["Gt", x, ["noo"]], ["max", L(x, ["noo"])], ["min", L(x, ["oo"], y)],
+            ["constant", "I"], ["function_symbol", "f", L(x)], ["zeta", x], ["lambertw", x], ["conjugate", x],
+            ["kronecker_delta", x, y], ["beta", x, y], ["digamma", x]]
+    return out
 
 
 class C15(Check):
     pid = "C15"
     exe = "driver"
     builds = [("main", ("driver",))]
-    rule = ("")
+    rule = ("batches of %d expressions over x, y, z, t: a deterministic table (every node type the printers accept, "
+            "codegen.cpp bvisit list, in several argument shapes and printing contexts: term of a sum, numerator, "
+            "denominator, negated, argument; integer literals around 2^31 2^53 2^63 2^64 and beyond; integer -4..5 and "
+            "rational powers; Max/Min of 2-5; relationals / And / Or / Xor / Not / Contains(Interval) in arithmetic "
+            "context and as Piecewise conditions; nested Piecewise; infinities; pi / E) plus Hypothesis recursive trees "
+            "(<= 7 leaves quick, 10 thorough).  Arguments are moved into each function's real domain at the first input "
+            "vector by evalnum.repair.  Each expression is printed by ccode(Double), ccode(Float), C89CodePrinter, "
+            "C99CodePrinter; every distinct text becomes `double f_k(double x, double y, double z, double t) { return "
+            "<text>; }` in one translation unit with <math.h>, compiled by gcc -O0 -std=gnu99 -fno-builtin -lm and "
+            "evaluated at 4 input vectors (odd multiples of 1/64, so exact in float; symbols tie with some "
+            "probability).  Oracle: mpmath value of the constructed expression at the vector (50/70 digits), tolerance "
+            "64*u*E with u = 2^-53 (2^-24 for Float) and E the first-order error mass over all rounding points (evalnum "
+            "model; a literal is a rounding point unless its 15-digit print converts back exactly in the target type); "
+            "kappa > 1e4, values within 1e-9 (1e-3 for Float) of a discontinuity and Float magnitudes outside 1e+-30 are "
+            "skipped; (in)equalities of exactly computed operands (integer-valued functions, symbols, small integer "
+            "combinations) are judged at ties.  Infinite reference values must be reproduced exactly.  A printer that "
+            "throws declines; text using an identifier that is neither a bound symbol nor an ISO C99 <math.h> name is "
+            "declined (EulerGamma, gamma, f, ...); a batch that gcc rejects is bisected and the rejected text is a "
+            "violation.  Known findings are excluded narrowly only while their tag is active (skipped['known:*']).  "
+            "Non-trivial: expression whose tree has a Rational, a negative or rational power, or a Piecewise; distinct by "
+            "recipe.  classes: judged:<printer> = judged (text, vector) pairs, node:<T> = judged expressions containing T."
+            % BATCH)
     assumptions = ["mpmath principal branches are the reference (DESIGN 3.5)",
                    "glibc libm (double and float functions) is accurate to a few ulp (factor 64)",
                    "gcc -O0 -std=gnu99 -fno-builtin implements C arithmetic on IEEE doubles / floats",
                    "a printer that throws declines; emitted code that uses an identifier which is neither a bound symbol "
                    "nor an ISO C99 <math.h> name is the user's to complete and is declined"]
-    tiers = {"quick": {"examples": 88, "shrink_calls": 40}, "thorough": {"examples": 4800, "shrink_calls": 80}}
-    case_timeout = 600
+    tiers = {"quick": {"examples": 64, "shrink_calls": 40}, "thorough": {"examples": 4800, "shrink_calls": 80}}
+    case_timeout = 900
     timeout = 120.0
 
     # ------------------------------------------------------------------ generation
     def enumerate(self, tier):
-        return []
+        tb = table()
+        exprs = [mk_expr(e, [V[(i + j) % len(V)] for j in range(cgen.NVEC)]) for i, e in enumerate(tb)]
+        for i in range(0, len(exprs), BATCH):
+            yield {"exprs": exprs[i:i + BATCH]}
 
     def strategy(self, tier):
         n = 7 if tier == "quick" else 10
         elem = st.builds(mk_expr, cgen.tree(n), cgen.input_vectors())
+        # fixed number of slots; a slot shrinks to None, which removes the expression from the batch
         slot = en.weighted([(1, st.none()), (9, elem)])
         return st.lists(slot, min_size=BATCH, max_size=BATCH).map(lambda xs: {"exprs": xs})
 
     # ------------------------------------------------------------------ judging
+    def _compare(self, vals, refs, flt):
+        """-> (judged, skipped reasons, first failure (j, text) or None)"""
+        judged, skipped, fail = 0, [], None
+        for j in range(cgen.NVEC):
+            ref = refs[j][flt]
+            if isinstance(ref, Unjudgeable):
+                skipped.append("ref:" + ":".join(ref.reason.split(":")[:2]))
+                continue
+            got = vals[j]
+            judged += 1
+            bad = None
+            if got == "fpe":
+                bad = "raises SIGFPE (integer division by zero)"
+            elif not mpmath.isfinite(ref.value):
+                if got != float(ref.value):
+                    bad = "evaluates to %r" % got
+            elif not finite(got):
+                bad = "evaluates to %r" % got
+            else:
+                tol = ref.tol_abs(64) + mpf(10) ** -40 * max(1, abs(ref.value))
+                if not on.close(mpf(got), ref.value, 0, tol):
+                    bad = "evaluates to %r (|diff| %.3g > tol %.3g)" % (got, float(abs(mpf(got) - ref.value)), float(tol))
+            if bad and fail is None:
+                fail = (j, "%s but e has the value %s (kappa %.3g)" % (bad, mpmath.nstr(ref.value, 20), float(ref.kappa)))
+        return judged, skipped, fail
+
     def judge(self, case):
         exprs = [e for e in case["exprs"] if e is not None]
         if not exprs:
@@ -103,14 +326,20 @@ class C15(Check):
             pos.append(k)
         res = self.run(stmts)
         funcs = []          # (code, vectors)
-        owner = []          # (expression index, [printer names]) per function
+        owner = []          # (expression index, [printer names], float?) per function
         dumps = {}
         for i, ex in enumerate(exprs):
             k = pos[i]
             if is_exc(res[k]):
                 self.skip("assert_seen" if res[k]["exc"] == "VerifAssertFailure" else "construct:" + res[k]["exc"])
                 continue
-            dumps[i] = B(res[k])
+            d = dumps[i] = B(res[k])
+            if self.tag_active(TAG_PAREN) and paren_risk(d):
+                self.skip("known:" + TAG_PAREN)
+                continue
+            if self.tag_active(TAG_EMPTY) and unbounded_interval(d):
+                self.skip("known:" + TAG_EMPTY)
+                continue
             bycode = {}
             for pi, (pname, _, flt) in enumerate(PRINTERS):
                 r = res[k + 1 + pi]
@@ -121,66 +350,96 @@ class C15(Check):
                 if foreign:
                     self.skip("foreign_identifier:%s:%s" % (pname, foreign[0]))
                     continue
+                if not flt and self.tag_active(TAG_BIGINT) and has_huge_int_literal(r):
+                    self.skip("known:" + TAG_BIGINT)
+                    continue
                 bycode.setdefault((r, flt), []).append(pname)
             for (code, flt), names in bycode.items():
                 funcs.append((code, ex["x"]))
                 owner.append((i, names, flt))
         if not funcs:
             return
-        self.stats = getattr(self, "stats", {})
-        out = cgen.compile_run(funcs, "m", self.stats)
+        stats = {}
+        out = cgen.compile_run(funcs, "m", stats)
         self.cls("batches")
+        self.cls("compilations", stats["compilations"])
         refs = {}
-        judged = {}
-        for (code, xs), (i, names, flt), (status, vals) in zip(funcs, owner, out):
+        fails = []
+        okfuncs = []
+        for fi, ((code, xs), (i, names, flt), (status, vals)) in enumerate(zip(funcs, owner, out)):
             ex = exprs[i]
             if status == "rejected":
                 self.count()
-                raise Violation("%s(e) = %r uses only the bound symbols and <math.h> but gcc rejects it: %s; e = %s"
-                                % ("/".join(names), code, vals, engine.sx(ex["e"])[:800]),
-                                {"minimal_case": {"exprs": [ex]}})
-            for j, x in enumerate(xs):
-                if (i, j) not in refs:
-                    refs[(i, j)] = cgen.stable_reference(dumps[i], dict(zip(cgen.SYMS, x)))
-                ref = refs[(i, j)][flt]
-                if isinstance(ref, Unjudgeable):
-                    self.skip("ref:" + ":".join(ref.reason.split(":")[:2]), len(names))
-                    continue
-                got = vals[j]
-                self.count(len(names))
-                bad = None
-                if got == "fpe":
-                    bad = "raises SIGFPE (integer division by zero)"
-                elif not mpmath.isfinite(ref.value):
-                    if got != float(ref.value):
-                        bad = "evaluates to %r" % got
-                elif not finite(got):
-                    bad = "evaluates to %r" % got
-                else:
-                    tol = ref.tol_abs(64) + mpf(10) ** -40 * max(1, abs(ref.value))
-                    if not on.close(mpf(got), ref.value, 0, tol):
-                        bad = "evaluates to %r (|diff| %.3g > tol %.3g)" % (got, float(abs(mpf(got) - ref.value)), float(tol))
-                if bad:
-                    raise Violation("%s(e) = %r at %s %s but e has the value %s (kappa %.3g); e = %s"
-                                    % ("/".join(names), code, dict(zip(cgen.SYMS, x)), bad, mpmath.nstr(ref.value, 20),
-                                       float(ref.kappa), engine.sx(ex["e"])[:800]),
-                                    {"minimal_case": {"exprs": [ex]}, "dump": dumps[i]})
-                for nm in names:
-                    self.cls("judged:" + nm)
-                judged.setdefault(i, set()).update(names)
-        for i, names in judged.items():
+                fails.append((fi, "uses only the bound symbols and <math.h> but gcc rejects it: %s" % vals))
+                continue
+            if i not in refs:
+                refs[i] = [cgen.stable_reference(dumps[i], dict(zip(cgen.SYMS, x))) for x in xs]
+            judged, skipped, fail = self._compare(vals, refs[i], flt)
+            self.count(judged * len(names))
+            for s in skipped:
+                self.skip(s, len(names))
+            if fail is not None:
+                fails.append((fi, "at %s %s" % (dict(zip(cgen.SYMS, xs[fail[0]])), fail[1])))
+            elif judged:
+                okfuncs.append(fi)
+        # ---- KF-C15-01: a failure of a double-precision text that disappears when every integer literal of the
+        # text is given type double is the known integer-arithmetic finding
+        if fails and self.tag_active(TAG_INT):
+            cand = [(fi, msg) for fi, msg in fails
+                    if not owner[fi][2] and cgen.int_literals_as_double(funcs[fi][0]) != funcs[fi][0]]
+            if cand:
+                out2 = cgen.compile_run([(cgen.int_literals_as_double(funcs[fi][0]), funcs[fi][1]) for fi, _ in cand], "r", {})
+                healed = set()
+                for (fi, _), (status, vals) in zip(cand, out2):
+                    if status != "ok":
+                        continue
+                    i, names, flt = owner[fi]
+                    if i not in refs:
+                        refs[i] = [cgen.stable_reference(dumps[i], dict(zip(cgen.SYMS, x))) for x in funcs[fi][1]]
+                    judged, _, fail = self._compare(vals, refs[i], flt)
+                    if judged and fail is None:
+                        healed.add(fi)
+                        self.skip("known:" + TAG_INT, len(names))
+                fails = [(fi, msg) for fi, msg in fails if fi not in healed]
+        if fails:
+            fi, msg = fails[0]
+            i, names, flt = owner[fi]
+            raise Violation("%s(e) = %r %s; e = %s" % ("/".join(names), funcs[fi][0], msg, engine.sx(exprs[i]["e"])[:800]),
+                            {"minimal_case": {"exprs": [exprs[i]]}, "dump": dumps[i]})
+        seen = set()
+        for fi in okfuncs:
+            i, names, flt = owner[fi]
+            for nm in names:
+                self.cls("judged:" + nm)
+            if i in seen:
+                continue
+            seen.add(i)
             d = dumps[i]
-            heads = en.dump_heads(d)
-            for h in heads:
+            for h in en.dump_heads(d):
                 self.cls("node:" + h)
             if nontrivial(d):
                 self.nontriv(exprs[i]["e"])
-            self.sample({"recipe": engine.sx(exprs[i]["e"])[:300], "printers": sorted(names)})
+            self.sample({"recipe": engine.sx(exprs[i]["e"])[:300], "code": funcs[fi][0][:200], "printers": names,
+                         "value@x0": mpmath.nstr(refs[i][0][flt].value, 17) if not isinstance(refs[i][0][flt], Unjudgeable) else None})
 
 
 def main():
     cgen.install_extra_findings()
-    return engine.main(C15)
+    rc = engine.main(C15)
+    if rc == 0 and "--replay" not in sys.argv and not os.environ.get("VERIF_SCAN"):
+        p = os.path.join(engine.VERIF, "evidence", "C15.json")
+        if os.environ.get("VERIF_BUILD_TAG") or os.environ.get("VERIF_REPO"):
+            p = os.path.join(engine.VERIF, "evidence", "_scratch", "C15.json")
+        with open(p) as f:
+            ev = json.load(f)
+        cl = ev["coverage"]["classes"]
+        miss = [n for n in NODES if not cl.get("node:" + n)]
+        miss += [pn for pn, _, _ in PRINTERS if not cl.get("judged:" + pn)]
+        print("coverage: %d node types, missing: %s" % (len(NODES), miss or "none"))
+        if miss:
+            print("INTERNAL ERROR in check C15: supported node types never judged: %s (generator defect)" % miss)
+            return 2
+    return rc
 
 
 if __name__ == "__main__":
